@@ -419,18 +419,23 @@ class Summariser:
             for s, t in self.branch(test.test, st, substituted):
                 out.extend(self.branch(test.body if t else test.orelse, s, substituted))
             return out
+        rewritten = _expand_test(test)
+        if rewritten is not None:
+            return self.branch(rewritten, st, substituted)
         if not substituted:
             if isinstance(test, ast.NamedExpr) and isinstance(test.target, ast.Name):
                 val = self.subst(test.value, env)
                 env2 = dict(env)
                 self.bind(test.target, val, env2)
                 tr2 = trace if _readonly(test.value) else trace + (("e", f"_ := {src(val)}"),)
+                self._bound_now(env2, test.target.id, tr2)
                 return self.branch(env2[test.target.id], (env2, tr2), True)
             if isinstance(test, ast.Compare) and len(test.ops) == 1 and isinstance(test.left, ast.NamedExpr) and isinstance(test.left.target, ast.Name):
                 val = self.subst(test.left.value, env)
                 env2 = dict(env)
                 self.bind(test.left.target, val, env2)
                 tr2 = trace if _readonly(test.left.value) else trace + (("e", f"_ := {src(val)}"),)
+                self._bound_now(env2, test.left.target.id, tr2)
                 val = env2[test.left.target.id]
                 new = ast.Compare(left=val, ops=test.ops, comparators=[self.subst(c, env2) for c in test.comparators])
                 return self.branch(new, (env2, tr2), True)
@@ -456,6 +461,11 @@ class Summariser:
     # -- values: expand top-level conditional expressions into paths
     def values(self, e, st, substituted=False):
         """[(state, value ast)]"""
+        if isinstance(e, ast.UnaryOp) and isinstance(e.op, ast.Not) and isinstance(e.operand, ast.BoolOp):
+            # De Morgan: `not (a or b)` is `not a and not b` (both are booleans; the operands are evaluated alike)
+            inner = e.operand
+            flipped = ast.BoolOp(op=ast.And() if isinstance(inner.op, ast.Or) else ast.Or(), values=[ast.UnaryOp(op=ast.Not(), operand=v) for v in inner.values])
+            return self.values(ast.copy_location(flipped, e), st, substituted)
         if isinstance(e, ast.BoolOp) and len(e.values) >= 2:
             # `a or b` is `a if a else b`; `a and b` is `b if a else a`
             first, rest = e.values[0], (e.values[1] if len(e.values) == 2 else ast.BoolOp(op=e.op, values=e.values[1:]))
@@ -531,6 +541,13 @@ class Summariser:
         if k == 1:
             return value  # the first evaluation of this expression on the path needs no mark
         return ast.Call(func=ast.Name(id=f"@{k}", ctx=ast.Load()), args=[value], keywords=[])
+
+    @staticmethod
+    def _bound_now(env, name, trace):
+        """a name bound by `:=` inside a condition is bound at the clock of that point, not at the end of the statement"""
+        bt = dict(env.get("__bt") or {})
+        bt[name] = env.get("__tb", 0) + _ticks(trace) + env.get("__ib", 0)
+        env["__bt"] = bt
 
     def bind(self, target, value, env, tagged=False):
         if not tagged:
@@ -823,6 +840,34 @@ CONSUMERS = {"join", "all", "any", "sum", "set", "list", "tuple", "sorted", "min
              "smt_or", "smt_and", "dict", "Concat", "concat"}
 
 
+def _simple_operand(e) -> bool:
+    if isinstance(e, ast.Subscript):
+        return _simple_operand(e.value) and _simple_operand(e.slice)
+    return isinstance(e, (ast.Name, ast.Constant)) or (isinstance(e, ast.Attribute) and _simple_operand(e.value))
+
+
+def _expand_test(test):
+    """a <= b < c  ->  a <= b and b < c ;  s.startswith(('a', 'b'))  ->  s.startswith('a') or s.startswith('b') ;
+    x in (A, B) with few simple members  ->  x == A or x == B   (None if the test is none of these)"""
+    if isinstance(test, ast.Compare) and len(test.ops) >= 2 and all(_simple_operand(c) for c in test.comparators[:-1]):
+        parts = []
+        left = test.left
+        for op, right in zip(test.ops, test.comparators):
+            parts.append(ast.Compare(left=left, ops=[op], comparators=[right]))
+            left = right
+        return ast.BoolOp(op=ast.And(), values=parts)
+    if isinstance(test, ast.Call) and isinstance(test.func, ast.Attribute) and test.func.attr in ("startswith", "endswith") and len(test.args) == 1 and not test.keywords and isinstance(test.args[0], ast.Tuple) and test.args[0].elts and _simple_operand(test.func.value):
+        return ast.BoolOp(op=ast.Or(), values=[ast.Call(func=test.func, args=[e], keywords=[]) for e in test.args[0].elts])
+    walrus = isinstance(test, ast.Compare) and isinstance(test.left, ast.NamedExpr)
+    if isinstance(test, ast.Compare) and len(test.ops) == 1 and isinstance(test.ops[0], (ast.In, ast.NotIn)) and isinstance(test.comparators[0], (ast.Tuple, ast.List, ast.Set)) and 1 <= len(test.comparators[0].elts) <= 4 and (walrus or _simple_operand(test.left)) and all(isinstance(e, ast.Constant) for e in test.comparators[0].elts):
+        # `(x := E) in (A, B)` binds x once, then compares x
+        later = ast.Name(id=test.left.target.id, ctx=ast.Load()) if walrus else test.left
+        eqs = [ast.Compare(left=test.left if i == 0 else later, ops=[ast.Eq()], comparators=[e]) for i, e in enumerate(test.comparators[0].elts)]
+        pos = eqs[0] if len(eqs) == 1 else ast.BoolOp(op=ast.Or(), values=eqs)
+        return pos if isinstance(test.ops[0], ast.In) else ast.UnaryOp(op=ast.Not(), operand=pos)
+    return None
+
+
 def _is_boolish(e) -> bool:
     """syntactically a bool: comparison, not, isinstance/any/all/callable/hasattr call, and/or of those"""
     if isinstance(e, ast.Compare):
@@ -971,15 +1016,52 @@ def _append_idiom(loop):
     return x, comp
 
 
+def _count_idiom(loop):
+    """for t in it: if P: x += 1   ->   (x, (P for t in it))   -- with `x = 0` before it this is x = sum(P for t in it)"""
+    if not (isinstance(loop, ast.For) and not loop.orelse and len(loop.body) == 1 and isinstance(loop.body[0], ast.If)):
+        return None
+    cond = loop.body[0]
+    if cond.orelse or len(cond.body) != 1 or not isinstance(cond.body[0], ast.AugAssign):
+        return None
+    aug = cond.body[0]
+    if not (isinstance(aug.op, ast.Add) and isinstance(aug.target, ast.Name) and isinstance(aug.value, ast.Constant) and aug.value.value == 1 and type(aug.value.value) is int):
+        return None
+    if not _is_boolish(cond.test):
+        return None
+    x = aug.target.id
+    used = {n.id for part in (loop.iter, cond.test, loop.target) for n in ast.walk(part) if isinstance(n, ast.Name)}
+    if x in used or any(isinstance(n, (ast.Yield, ast.YieldFrom, ast.Await, ast.NamedExpr)) for n in ast.walk(loop)):
+        return None
+    return x, ast.GeneratorExp(elt=cond.test, generators=[ast.comprehension(target=loop.target, iter=loop.iter, ifs=[], is_async=0)])
+
+
 class _Idioms(ast.NodeTransformer):
     """statement-level idioms: `X = []` ... `for t in it: X.append(E)` is `X = [E for t in it]` when nothing touches X in
     between; a `match` over literal / fixed-length sequence / class / wildcard patterns is an if-chain"""
 
     def _rewrite_list(self, body):
-        body = self._any_all(list(body))
+        body = self._first_match(self._any_all(list(body)))
         out = []
         for st in body:
             st = self.visit(st)
+            count = _count_idiom(st)
+            if count is not None:
+                x, gen = count
+                k = None
+                for j in range(len(out) - 1, -1, -1):
+                    q = out[j]
+                    if isinstance(q, ast.Assign) and len(q.targets) == 1 and isinstance(q.targets[0], ast.Name) and q.targets[0].id == x:
+                        if isinstance(q.value, ast.Constant) and q.value.value == 0 and type(q.value.value) is int:
+                            k = j
+                        break
+                    if x in {n.id for n in ast.walk(q) if isinstance(n, ast.Name)}:
+                        break
+                if k is not None:
+                    new = ast.copy_location(ast.Assign(targets=[ast.Name(id=x, ctx=ast.Store())], value=ast.Call(func=ast.Name(id="sum", ctx=ast.Load()), args=[gen], keywords=[])), st)
+                    ast.fix_missing_locations(new)
+                    del out[k]
+                    out.append(new)
+                    continue
             idiom = _append_idiom(st)
             if idiom is not None:
                 x, comp = idiom
@@ -1000,7 +1082,60 @@ class _Idioms(ast.NodeTransformer):
                     del out[k]
                     out.append(new)
                     continue
+            bulk = self._bulk_call(st)
+            out.append(bulk if bulk is not None else st)
+        return out
+
+    @staticmethod
+    def _bulk_call(st):
+        """for t in it: R.append(E)  ->  R.extend(E for t in it) ;  R.add(E) -> R.update(E for ..) ;
+        R.update(E) -> R.update(*(E for ..))   for a receiver R that the loop does not otherwise touch"""
+        if not (isinstance(st, ast.For) and not st.orelse and len(st.body) == 1 and isinstance(st.body[0], ast.Expr) and isinstance(st.body[0].value, ast.Call)):
+            return None
+        c = st.body[0].value
+        if not (isinstance(c.func, ast.Attribute) and c.func.attr in ("append", "add", "update") and len(c.args) == 1 and not c.keywords):
+            return None
+        recv = c.func.value
+        rtxt = ast.unparse(recv)
+        others = " ".join(ast.unparse(x) for x in (st.iter, c.args[0], st.target))
+        import re as _re
+
+        if _re.search(rf"(?<![\w.]){_re.escape(rtxt)}(?![\w])", others) or any(isinstance(n, (ast.Yield, ast.YieldFrom, ast.Await, ast.NamedExpr)) for n in ast.walk(st)):
+            return None
+        gen = ast.GeneratorExp(elt=c.args[0], generators=[ast.comprehension(target=st.target, iter=st.iter, ifs=[], is_async=0)])
+        if c.func.attr == "append":
+            call = ast.Call(func=ast.Attribute(value=recv, attr="extend", ctx=ast.Load()), args=[gen], keywords=[])
+        elif c.func.attr == "add":
+            call = ast.Call(func=ast.Attribute(value=recv, attr="update", ctx=ast.Load()), args=[gen], keywords=[])
+        else:
+            call = ast.Call(func=ast.Attribute(value=recv, attr="update", ctx=ast.Load()), args=[ast.Starred(value=gen, ctx=ast.Load())], keywords=[])
+        new = ast.copy_location(ast.Expr(value=call), st)
+        ast.fix_missing_locations(new)
+        return new
+
+    @staticmethod
+    def _first_match(body):
+        """for t in it: if P: return t / return D   ->   return next((t for t in it if P), D)"""
+        out = []
+        i = 0
+        while i < len(body):
+            st = body[i]
+            nxt = body[i + 1] if i + 1 < len(body) else None
+            if (
+                isinstance(st, ast.For) and not st.orelse and len(st.body) == 1 and isinstance(st.body[0], ast.If) and not st.body[0].orelse
+                and len(st.body[0].body) == 1 and isinstance(st.body[0].body[0], ast.Return) and isinstance(nxt, ast.Return)
+                and isinstance(st.target, ast.Name) and isinstance(st.body[0].body[0].value, ast.Name) and st.body[0].body[0].value.id == st.target.id
+                and nxt.value is not None and isinstance(nxt.value, ast.Constant)
+                and not any(isinstance(n, (ast.Yield, ast.YieldFrom, ast.Await, ast.NamedExpr)) for n in ast.walk(st))
+            ):
+                gen = ast.GeneratorExp(elt=ast.Name(id=st.target.id, ctx=ast.Load()), generators=[ast.comprehension(target=st.target, iter=st.iter, ifs=[st.body[0].test], is_async=0)])
+                new = ast.copy_location(ast.Return(value=ast.Call(func=ast.Name(id="next", ctx=ast.Load()), args=[gen, nxt.value], keywords=[])), st)
+                ast.fix_missing_locations(new)
+                out.append(new)
+                i += 2
+                continue
             out.append(st)
+            i += 1
         return out
 
     @staticmethod
